@@ -11,6 +11,7 @@ import SmppVerif.Model.Split
 import SmppVerif.Model.Policy
 import SmppVerif.Model.DriverCorr
 import SmppVerif.Model.DriverPdu
+import SmppVerif.Model.DriverJson
 
 namespace SmppVerif.Driver
 open SmppVerif SmppVerif.Wire
@@ -198,7 +199,10 @@ def stepS (st : DState) (line : String) : DState × String :=
   | none =>
     match DriverPdu.step ws with
     | some out => (st, out)
-    | none => (st, step line)
+    | none =>
+      match DriverJson.step ws with
+      | some out => (st, out)
+      | none => (st, step line)
 
 partial def loop (h : IO.FS.Stream) (out : IO.FS.Stream) (st : DState) : IO Unit := do
   let line ← h.getLine
